@@ -8,6 +8,8 @@
 -/
 import Caches.Lemmas.Slru
 import Caches.Props.SlruSpec
+import Caches.Props.SlruMachine
+import Caches.Lemmas.Reach
 set_option linter.unusedSectionVars false
 set_option linter.unusedVariables false
 namespace C07
@@ -152,4 +154,104 @@ theorem segment_accessors (s : Slru κ ν) :
 
 /-- non-vacuity: promotion with demotion on a concrete full cache -/
 example : SlruSpec.promote [(1, 10), (2, 20)] [(3, 30)] 1 2 (20 : Nat) = ([(3, 30), (1, 10)], [(2, 20)]) := by decide
+/-! ### the other entry points, and every history -/
+
+/-- **`remove` = the policy** (the repaired code looks in probationary first) -/
+theorem remove_eq_spec (s : Slru κ ν) (k : κ) :
+    ((s.remove k).1.prob.items, (s.remove k).1.prot.items, (s.remove k).2.1) = SlruSpec.remove s.prob.items s.prot.items k := by
+  unfold Slru.remove RawLru.remove SlruSpec.remove
+  cases hp : find k s.prob.items <;> cases hq : find k s.prot.items <;> simp
+
+/-- **`put_protected` = the policy** -/
+theorem putProtected_eq_spec (s : Slru κ ν) (k : κ) (v : ν) (h : s.Inv) :
+    ∃ r s' d, s.putProtected k v = .ok (r, s', d) ∧
+      (s'.prob.items, s'.prot.items) = SlruSpec.putProtected s.prob.items s.prot.items s.prot.cap k v := by
+  have hq0 : s.prot.cap ≠ 0 := by have := h.pq; omega
+  unfold Slru.putProtected RawLru.remove SlruSpec.putProtected
+  cases hp : find k s.prob.items <;> cases hq : find k s.prot.items
+  all_goals simp only []
+  all_goals first
+    | (simp only [RawLru.put_present _ k v _ hq]; exact ⟨_, _, _, rfl, rfl⟩)
+    | (by_cases hfull : s.prot.items.length = s.prot.cap
+       · obtain ⟨lru, hl⟩ := getLast?_some_of_pos s.prot.items (by have := h.pq; omega)
+         simp only [RawLru.put_absent_full s.prot k v lru hq hfull hq0 hl]
+         have : s.prot.items.length ≥ s.prot.cap := by omega
+         simp only [this, if_true]
+         exact ⟨_, _, _, rfl, rfl⟩
+       · have hroom : s.prot.items.length < s.prot.cap := by have := h.bq; omega
+         simp only [RawLru.put_absent_room s.prot k v hq hroom]
+         have : ¬ s.prot.items.length ≥ s.prot.cap := by omega
+         simp only [this, if_false]
+         exact ⟨_, _, _, rfl, rfl⟩)
+
+/-- **`peek_mut` (+ write) = the policy**: values change in place, nothing moves -/
+theorem peekMut_eq_spec (s : Slru κ ν) (k : κ) (w : Option ν) :
+    ((s.peekMut k w).1.prob.items, (s.peekMut k w).1.prot.items) = SlruSpec.peekMut s.prob.items s.prot.items k w := by
+  unfold Slru.peekMut RawLru.peekMut SlruSpec.peekMut
+  cases hp : find k s.prob.items <;> cases hq : find k s.prot.items <;> cases w <;> simp
+
+/-- **every operation = the policy**, on every well-formed cache -/
+theorem step_eq_spec (s : Slru κ ν) (o : SlruOp κ ν) (h : s.Inv) :
+    ∃ s', s.step o = .ok s' ∧
+      (s'.prob.items, s'.prot.items) = SlruSpec.step s.prob.cap s.prot.cap (s.prob.items, s.prot.items) o := by
+  cases o with
+  | put k v =>
+    obtain ⟨r, s', d, hp, he⟩ := put_eq_spec s k v h
+    exact ⟨s', by simp only [Slru.step, hp], by simp only [SlruSpec.step, ← he]⟩
+  | putProtected k v =>
+    obtain ⟨r, s', d, hp, he⟩ := putProtected_eq_spec s k v h
+    exact ⟨s', by simp only [Slru.step, hp], by simp only [SlruSpec.step, ← he]⟩
+  | getMut k w =>
+    obtain ⟨r, s', hp, he⟩ := get_eq_spec s k w h
+    exact ⟨s', by simp only [Slru.step, hp], by simp only [SlruSpec.step, ← he]⟩
+  | peekMut k w => exact ⟨_, rfl, by simp only [SlruSpec.step, ← peekMut_eq_spec]⟩
+  | remove k => exact ⟨_, rfl, by simp only [SlruSpec.step, ← remove_eq_spec]⟩
+  | purge =>
+    refine ⟨{ prob := { s.prob with items := [] }, prot := { s.prot with items := [] } }, ?_, rfl⟩
+    simp only [Slru.step, Slru.purge, RawLru.purge_spec]
+  | removeLruProb =>
+    refine ⟨_, rfl, ?_⟩
+    simp only [SlruSpec.step, Slru.removeLruFromProbationary, RawLru.removeLru, RawLru.removeLruIn]
+    cases hl : s.prob.items.getLast? with
+    | none => simp only [List.getLast?_eq_none_iff.1 hl, List.dropLast_nil]
+    | some e => rfl
+  | removeLruProt =>
+    refine ⟨_, rfl, ?_⟩
+    simp only [SlruSpec.step, Slru.removeLruFromProtected, RawLru.removeLru, RawLru.removeLruIn]
+    cases hl : s.prot.items.getLast? with
+    | none => simp only [List.getLast?_eq_none_iff.1 hl, List.dropLast_nil]
+    | some e => rfl
+  | clone => exact ⟨s, Slru.clone_eq s h, rfl⟩
+  | read => exact ⟨s, rfl, rfl⟩
+
+/-- **refinement over every history**: from any accepted constructor, any sequence of public operations runs
+    without a fault and leaves the two segments holding exactly what the segmented-LRU policy, folded over the
+    same sequence from two empty lists, says — entry by entry, in recency order -/
+theorem history_eq_spec (p q : Nat) (s0 : Slru κ ν) (hn : Slru.new p q = some s0) (ops : List (SlruOp κ ν)) :
+    ∃ s', runOps Slru.step s0 ops = .ok s' ∧
+      (s'.prob.items, s'.prot.items) = ops.foldl (SlruSpec.step p q) ([], []) := by
+  obtain ⟨hi0, hp0, hq0⟩ := Slru.inv_new p q s0 hn
+  have hl0 : (s0.prob.items, s0.prot.items) = (([], []) : AL κ ν × AL κ ν) := by
+    unfold Slru.new at hn; split at hn; · cases hn
+    split at hn; · cases hn
+    injection hn with hn; subst hn; rfl
+  suffices H : ∀ (ops : List (SlruOp κ ν)) (s : Slru κ ν) (PQ : AL κ ν × AL κ ν), Slru.InvC p q s →
+      (s.prob.items, s.prot.items) = PQ →
+      ∃ s', runOps Slru.step s ops = .ok s' ∧ (s'.prob.items, s'.prot.items) = ops.foldl (SlruSpec.step p q) PQ from
+    H ops s0 _ ⟨hi0, hp0, hq0⟩ hl0
+  intro ops
+  induction ops with
+  | nil => intro s PQ _ he; exact ⟨s, rfl, he⟩
+  | cons o rest ih =>
+    intro s PQ hc he
+    obtain ⟨s1, h1, hc1⟩ := Slru.step_invC p q s o hc
+    obtain ⟨s1', h1', he1⟩ := step_eq_spec s o hc.1
+    rw [h1] at h1'; injection h1' with h1'; subst h1'
+    rw [hc.2.1, hc.2.2, he] at he1
+    obtain ⟨s2, h2, he2⟩ := ih s1 _ hc1 he1
+    exact ⟨s2, by simp only [runOps, h1, h2], by simp only [List.foldl_cons, he2]⟩
+
+/-- non-vacuity of the history theorem: a concrete history through promotion, demotion, `put_protected`, removal -/
+example : [SlruOp.put 1 10, .put 2 20, .getMut 1 none, .getMut 2 none, .putProtected 3 30, .put 4 40, .remove 2].foldl
+    (SlruSpec.step 2 1) (([], []) : AL Nat Nat × AL Nat Nat) = ([(4, 40), (1, 10)], [(3, 30)]) := by decide
 end C07
